@@ -19,7 +19,7 @@ RULE = (
     "invalid background, unknown format / method must raise ordinary exceptions, never PanicException. Non-trivial = scenario with a motif of width >= 2; distinct = distinct scenario inputs."
 )
 REQUIRED = [
-    "family.build", "family.calculate", "route.encoded_sequence", "route.striped_copy", "family.scan", "family.pvalue", "family.rc", "family.load", "family.errors",
+    "family.build", "family.calculate", "route.encoded_sequence", "route.striped_copy", "route.copy_of_scored_sequence", "calculate.L=M", "family.scan", "family.pvalue", "family.rc", "family.load", "family.errors",
     "backend.generic", "backend.sse2", "backend.avx2", "backend.auto", "alphabet.protein", "reuse.increasing",
     "reuse.decreasing", "pseudocount.dict", "pseudocount.dict_with_wildcard_key", "background.wildcard_key", "background.nonuniform", "background.zero_entries", "base.non2",
     "pvalue.meme", "pvalue.tfmpvalue", "pvalue.rc_after_cached_distribution", "pvalue.wildcard_weighted_background", "load.path", "load.bytesio",
@@ -249,9 +249,17 @@ def family_calculate(rep, case, rng):
         rep.cover("reuse.increasing")
     else:
         rng.shuffle(widths)
-    for w in widths:
+    if 1 <= length <= 60 and rng.random() < 0.5:
+        widths.append(length)  # the motif exactly as long as the sequence: exactly one position
+        rep.cover("calculate.L=M")
+    for wi, w in enumerate(widths):
         pssm, rows = make_pssm(rng, w, protein)
         backend = rng.choice(BACKENDS)
+        if wi > 0 and rng.random() < 0.3:
+            # continue on a copy of the sequence that was already used for scoring
+            import copy as _copy
+            striped = striped.copy() if rng.random() < 0.5 else _copy.copy(striped)
+            rep.cover("route.copy_of_scored_sequence")
         rep.cover("backend.%s" % (backend or "auto"))
         rep.eval()
         wit = dict(protein=protein, length=length, width=w, widths_order=widths, backend=backend, sequence=text[:80])
@@ -266,7 +274,10 @@ def family_calculate(rep, case, rng):
             if len(sc) != n:
                 rep.violate("c17.calculate.len", case, "len(scores) = %d, expected L-M+1 = %d" % (len(sc), n), wit)
                 return
-            got = [sc[i] for i in range(n)]
+            okg, got = call(rep, case, "scores[i]", lambda: [sc[i] for i in range(n)], wit)
+            if not okg:
+                rep.violate("c17.calculate.index", case, "reading scores[0..%d) raised %r" % (n, got), wit)
+                return
             for i in range(n):
                 ex, ab = exact[i]
                 g = got[i]
@@ -667,7 +678,16 @@ def main():
             fam(rep, case, rng)
         except Panic:
             pass
-        except Exception as e:  # a failure of the monitor itself
+        except BaseException as e:
+            if type(e).__name__ in ("KeyboardInterrupt", "SystemExit"):
+                raise
+            if not isinstance(e, Exception):
+                # a PanicException (derives from BaseException) that escaped a library call the monitor
+                # makes outside its guard: still the library's panic, never a monitor error
+                import traceback
+
+                rep.violate("c17.panic:unguarded_call", case, "%s raised by a library call: %s | %s" % (type(e).__name__, e, traceback.format_exc()[-400:].replace("\n", " | ")), None)
+                continue  # a failure of the monitor itself
             import traceback
 
             rep.errors.append("case %d: monitor error %s: %s" % (case, type(e).__name__, traceback.format_exc()[-600:]))
